@@ -165,6 +165,9 @@ func Not(a *Term) *Term {
 		return True
 	case a.Op == "app" && a.Name == "not":
 		return a.Args[0]
+	case a.Op == "app" && a.Name == "=>" && (a.Args[0].Op == "forall" || a.Args[0].Op == "exists"):
+		// expose quantified hypotheses of a negated implication to the instantiation step
+		return And(a.Args[0], Not(a.Args[1]))
 	case a.Op == "forall":
 		return Exists(a.Binds, Not(a.Args[0]))
 	case a.Op == "exists":
